@@ -13,6 +13,7 @@ import itertools
 
 import common
 from common import coq_lit, CoqRaw, opt
+import c20_cover
 
 K_F8 = 'C20:EventHandler.disconnect:acts-on-id-0'
 K_F9 = 'C20:DictCache.__delitem__:short-term-stale'
@@ -156,6 +157,7 @@ def stream_events(ctx, boost, only=None):
         if err:
             ctx.fail('correspondence', 'events runner failed: ' + err[-500:], None)
             return
+        c20_cover.absorb('events', r)
         for j, x in enumerate(r):
             results[i + j * nproc] = x
     coq_cases, idx, keys = [], [], {}
@@ -221,10 +223,12 @@ def gen_cache_ops(rng, n, threaded=False, subs=True, no_overwrite=False, close=T
                 ops.append(['del', ci, k])
             ops.append(['set', ci, k, newval()])
             present[ci].add(k)
-        elif r < 0.40:
+        elif r < 0.37:
             ops.append(['getitem', ci, k])
+        elif r < 0.40:
+            ops.append(['items', ci])           # every key through items() and values()
         elif r < 0.46:
-            ops.append(['get', ci, k])
+            ops.append(['get', ci, k] + rng.choice([[], [], ['nodefault'], ['kw']]))
         elif r < 0.58:
             ops.append(['del', ci, k])
             present[ci].discard(k)
@@ -236,17 +240,20 @@ def gen_cache_ops(rng, n, threaded=False, subs=True, no_overwrite=False, close=T
         elif r < 0.84:
             ops.append(['short', ci, sorted(set(rng.randrange(NKEYS) for _ in range(rng.randint(0, 3))))])
         elif r < 0.87:
-            ops.append(['keys', ci])
-        elif r < 0.90:
-            ops.append(['pop', ci, k])
+            ops.append([rng.choice(['keys', 'keys', 'len']), ci])
+        elif r < 0.89:
+            ops.append(['pop', ci, k] + rng.choice([[], ['nodefault']]))
             present[ci].discard(k)
+        elif r < 0.90:
+            ops.append(['popitem', ci])
+            present[ci] = set(range(NKEYS))     # (which key went is the implementation's choice)
         elif r < 0.92 and not no_overwrite:
             ops.append(['setdefault', ci, k, newval()])
             present[ci].add(k)
         elif r < 0.94 and not no_overwrite:
             kv = [[rng.randrange(NKEYS), newval()] for _ in range(rng.randint(1, 2))]
             kv = [list(x) for x in dict((a, b) for a, b in kv).items()]
-            ops.append(['update', ci, kv])
+            ops.append(['update', ci, kv] + rng.choice([[], ['pairs'], ['kw'], ['both']]))
             present[ci].update(a for a, _ in kv)
         elif r < 0.95:
             ops.append(['clear', ci])
@@ -261,6 +268,11 @@ def gen_cache_ops(rng, n, threaded=False, subs=True, no_overwrite=False, close=T
         ops.append(['close', 0])
         for ci in range(ncaches):
             ops.append(['bool', ci])
+        for ci in range(ncaches):             # reads after close(): no data may come back from the closed cache
+            for _ in range(rng.randint(0, 2)):
+                ops.append([rng.choice(['getitem', 'getitem', 'get', 'items', 'pop']), ci] + [rng.randrange(NKEYS)])
+                if ops[-1][0] == 'items':
+                    ops[-1] = ops[-1][:2]
         for ci in range(ncaches):
             ops.append(['set', ci, rng.randrange(NKEYS), newval()])
         ops.append(['close', 0])
@@ -317,6 +329,8 @@ class CacheOracle:
                 return ['exc-closed']
             if kind == 'close':
                 return ['exc', 'ValueError']
+            if kind in ('getitem', 'get', 'pop', 'setdefault', 'items', 'popitem') and ci == 0:
+                return ['no-value']     # CacheFile.close() clears its short-term copies; the storage refuses to load
             return None
         if kind == 'set':
             self._set(ci, op[2], op[3])
@@ -338,12 +352,12 @@ class CacheOracle:
                 self.m(ci, '(CGetItem %s)' % Z(k), coq_out(impl))
                 self.m(ci, '(CDel %s)' % Z(k), 'ONone')
             else:
-                self.m(ci, '(CGetItem %s)' % Z(k), 'OKeyError' if impl[0] == 'absent' else coq_out(impl))
+                self.m(ci, '(CGetItem %s)' % Z(k), 'OKeyError' if impl[0] == 'absent' else coq_out(impl[:2]))
             if k in d:
                 want = ['val', d[k]]
                 self._del(ci, k)
                 return want
-            return ['absent']
+            return ['exc', 'KeyError'] if len(op) > 3 and op[3] == 'nodefault' else ['absent']
         if kind == 'setdefault':
             k = op[2]
             if k in d:
@@ -375,6 +389,24 @@ class CacheOracle:
         if kind == 'short':
             self.m(ci, '(CShort %s)' % Z(list(op[2])), coq_out(impl))
             return ['none']
+        if kind == 'items':
+            got = dict((a, b) for a, b in impl[1]) if impl[0] == 'items' else {}
+            for k in sorted(d):
+                self.m(ci, '(CGetItem %s)' % Z(k), '(OVal %s)' % Z(got[k]) if isinstance(got.get(k), int) else None)
+            return ['items', [[k, d[k]] for k in sorted(d)]]
+        if kind == 'popitem':
+            if not d:
+                return ['exc', 'KeyError']
+            if impl[0] == 'item' and impl[1] in d:
+                k = impl[1]
+                self.m(ci, '(CGetItem %s)' % Z(k), '(OVal %s)' % Z(impl[2]) if isinstance(impl[2], int) else None)
+                self.m(ci, '(CDel %s)' % Z(k), 'ONone')
+                want = ['item', k, d[k]]
+                self._del(ci, k)
+                return want
+            return ['item', 'one of', sorted(d.items())]
+        if kind == 'len':
+            return ['len', len(d), len(d), len(d)]
         if kind == 'keys':
             self.m(ci, 'CKeys', '(OKeys %s)' % Z(impl[1]) if impl[0] == 'keys' else 'OStorageError')
             return ['keys', sorted(d)]
@@ -392,6 +424,8 @@ class CacheOracle:
 
 
 def same(o, want):
+    if want == ['no-value']:
+        return not (o[0] in ('val', 'item') or (o[0] == 'items' and o[1]))
     if want == ['exc-closed']:
         return o[0] == 'exc' and o[1] in ('ValueError', 'WorkerDied')
     if want[0] == 'exc':
@@ -457,6 +491,7 @@ def run_cache_cases(ctx, cases, threads, stream, deadline=None):
         if err:
             ctx.fail('correspondence', '%s runner failed: %s' % (stream, err[-500:]), None)
             continue
+        c20_cover.absorb(stream, r)
         for j, x in enumerate(r):
             results[i + j * nproc] = x
     # the deadline is a deadlock detector, not a speed test: a case that missed it is run again alone
@@ -468,6 +503,7 @@ def run_cache_cases(ctx, cases, threads, stream, deadline=None):
         res2 = common.run_impl_parallel('c20_impl.py', pl, extra_env={'C20_TMP': common.scratch()}, timeout=400, maxpar=4)
         for i, (r, err) in zip(again, res2):
             if not err and r:
+                c20_cover.absorb(stream, r)
                 r[0]['rerun'] = True
                 results[i] = r[0]
     return results
@@ -482,9 +518,14 @@ def judge_cache_cases(ctx, cases, results, stream, coq_cases, coq_meta):
             continue
         ops = case['ops']
         nontrivial = (sum(o[0] in ('set', 'setdefault', 'update') for o in ops) >= 1 and
-                      sum(o[0] in ('getitem', 'get', 'pop') for o in ops) >= 1)
+                      sum(o[0] in ('getitem', 'get', 'pop', 'items', 'popitem') for o in ops) >= 1)
         ctx.count(stream, case, nontrivial=nontrivial, sample={'case': case, 'out': r.get('out')})
         replay = {'stream': stream, 'case': case, 'impl': r.get('out')}
+        for o in ops:
+            kk = o[0] + ('/' + o[3] if o[0] in ('get', 'pop', 'update') and len(o) > 3 and isinstance(o[3], str) else '')
+            c20_cover.OPS_SEEN[kk] = c20_cover.OPS_SEEN.get(kk, 0) + 1
+            if kk != o[0]:
+                c20_cover.OPS_SEEN[o[0]] = c20_cover.OPS_SEEN.get(o[0], 0) + 1
         if r.get('hang') or not r.get('done'):
             ctx.fail('oracle', '%s: deadlock detector: %s' % (stream, r.get('hang', 'case did not finish')), replay)
             continue
@@ -523,6 +564,9 @@ def judge_cache_cases(ctx, cases, results, stream, coq_cases, coq_meta):
             ctx.fail('oracle', '%s: worker thread still alive after close()' % stream, replay)
         if r.get('leftover'):
             ctx.fail('oracle', '%s: close() left files behind: %s' % (stream, r['leftover'][:3]), replay)
+        if r.get('open_fds'):
+            ctx.fail('oracle', '%s: file descriptors below the cache directory still open after close(): %s' % (
+                stream, r['open_fds'][:3]), replay)
         if coq_ops and not death_ok:
             coq_cases.append(cache_coq_case(coq_ops))
             coq_meta.append((stream, case, r, key if what else None))
@@ -626,6 +670,12 @@ def replay(ctx):
     elif stream == 'sched-close':
         import c20_sched
         c20_sched.check_close_cases(ctx, [inp['case']])
+    elif stream == 'cache-open':
+        c20_cover.stream_openopts(ctx, 1, only=[inp['case']])
+    elif stream == 'worker':
+        c20_cover.stream_worker(ctx, 1, only=[inp['case']])
+    elif stream == 'events-api':
+        c20_cover.stream_evapi(ctx, 1, only=[inp['case']])
     else:
         ctx.notes.append('replay file has no recorded input (proof obligation or runner failure): running the full check')
         return None
@@ -655,6 +705,10 @@ def main(ctx):
         c20_sched.stream_sched(ctx, boost)
         c20_sched.stream_sched_close(ctx, boost)
         c20_sched.stream_file_storage(ctx, boost)
+    t4 = time.time()
+    c20_cover.stream_all(ctx, boost)
+    c20_cover.table(ctx)
+    ctx.cov.setdefault('wall_breakdown_s', {})['api-coverage streams'] = round(time.time() - t4)
     ctx.assumptions += [
         'C20 storage classes: Storage, PickleStorage, Hdf5Storage without the worker thread, PickleStorage and Hdf5Storage with it '
         '(CacheFile.open(use_threading=True)); ThreadedStorage around the in-memory Storage is not a configuration: '
